@@ -1570,3 +1570,15 @@ pub const INTERPOSED: &[&str] = &[
     "statx", "chmod", "mkdir", "fchmodat", "unlink", "rmdir", "unlinkat", "rename", "renameat", "linkat", "link",
     "symlink", "opendir", "readdir64", "closedir", "clock_gettime",
 ];
+
+/// Registers a descriptor that was opened while the shim was bypassed, so that later calls on it
+/// by the library are traced like any other world descriptor.
+pub fn adopt_fd(fd: i32, path: &std::path::Path) {
+    if let Some(w) = current_world() {
+        bypass(|| {
+            let (ino, is_dir) = fstat_info(fd);
+            let flags = unsafe { real!("fcntl", unsafe extern "C" fn(c_int, c_int, c_long) -> c_int)(fd, libc::F_GETFL, 0) };
+            w.inner.lock().unwrap().fds.insert(fd, FdInfo { path: path.to_string_lossy().into_owned(), ino, flags, is_dir, read_once: false });
+        })
+    }
+}
